@@ -27,7 +27,7 @@ def run(diff):
 
 if __name__ == '__main__':
     diffs = sorted(x for a in sys.argv[1:] for x in glob.glob(os.path.join(a, 'R*.diff')))
-    with ThreadPoolExecutor(max_workers=6) as ex:
+    with ThreadPoolExecutor(max_workers=14) as ex:
         res = list(ex.map(run, diffs))
     bad = 0
     for diff, out in res:
